@@ -2,7 +2,7 @@
    Property theorems only (each closed by [exact] of a lemma, followed by Print Assumptions).
    Model: M_Codec (profile/proto.go + profile/encode.go + serialize/ParseUncompressed/Copy);
    specification: S_Codec (validity contract, NumUnit contract, the normalisation proto3 forces). *)
-From PV Require Import M_Codec S_Codec L_Codec_Wire L_Codec_Msg L_Codec_Tab L_Codec_Regroup L_Codec_Main.
+From PV Require Import M_Codec S_Codec L_Codec_Wire L_Codec_Msg L_Codec_Tab L_Codec_Regroup L_Codec_Main L_Codec_Norm.
 Open Scope string_scope.
 Open Scope list_scope.
 Open Scope Z_scope.
@@ -86,6 +86,24 @@ Theorem copy_is_normalize : forall p r,
   valid_b p = true -> units_wf_b p = true -> pre_encode p = Ok r -> size_ok r -> copy p = Ok (normalize p).
 Proof. exact copy_lemma. Qed.
 Print Assumptions copy_is_normalize.
+
+(* ---- "anything the parser returns survives write-then-parse unchanged and re-serializes to
+   identical bytes": the normalisation is idempotent and preserves validity, so the result of one
+   write-then-parse is a fixpoint of it ---- *)
+Theorem normalize_idempotent : forall p,
+  forallb (fun s => keys_sorted (s_numlabel s)) (p_sample p) = true -> normalize (normalize p) = normalize p.
+Proof. exact normalize_idem. Qed.
+Print Assumptions normalize_idempotent.
+
+Theorem normalize_preserves_validity : forall p, valid_b p = true -> valid_b (normalize p) = true.
+Proof. exact valid_normalize. Qed.
+Print Assumptions normalize_preserves_validity.
+
+Theorem parse_is_fixpoint : forall p r',
+  valid_b p = true -> pre_encode (normalize p) = Ok r' -> size_ok r' ->
+  parse_uncompressed (enc_profile r') = Ok (normalize p) /\ serialize (normalize p) = Ok (enc_profile r').
+Proof. exact reparse_fixpoint. Qed.
+Print Assumptions parse_is_fixpoint.
 
 (* ---- non-vacuity: a profile with a 3-element (packed) and a 2-element value list, a sparse id
    2^63+5, string labels incl. an empty value, numeric labels with mixed unit padding ---- *)
